@@ -34,6 +34,7 @@ FUNCTION_PRECONDITIONS = {
 }
 # callee -> (predicate name, accessor of the node passed): every call site must sit behind predicate(accessor(node)) == true
 CALL_SITE_GUARDS = {"format_local_no_assignment": ("is_empty", "expressions")}
+REBUILD_GUARDS = ("is_if_guard", "is_block_simple", "is_block_empty", "should_collapse_function_body")
 TUPLE_GETTERS = {("ContainedSpan", "start"): ("tokens", 0), ("ContainedSpan", "end"): ("tokens", 1)}
 PAREN_FUNCS = re.compile(r"^(format_expression|format_expression_internal|format_hanging_expression_|hang_expression|hang_expression_trailing_newline|"
                          r"hang_binop_expression|format_type_info|format_type_info_internal|hang_type_info|remove_type_parentheses|format_hangable_type_info|"
@@ -129,6 +130,60 @@ class Prov:
         return set()
 
 
+def _prov_direct(self, v, stop=frozenset(), depth=0, seen=None):
+    """objects that flow into `v` AS VALUES: v itself, the arguments of the calls it was computed by, aggregate fields, written box
+    contents - and the deref twins of each; a field of an object does NOT make the object itself flow (unlike `of`)"""
+    ex, st = self.ex, self.o.state
+    seen = set() if seen is None else seen
+    out = set()
+    if depth > 40 or v is None:
+        return out
+    if isinstance(v, Ref):
+        try:
+            inner = ex._read_key(st, v.key, v.path)
+        except Exception:
+            return out
+        out |= self.direct(inner, stop, depth + 1, seen)
+        for a in self.mut.get(v.key, []):
+            out |= self.direct(a, stop, depth + 1, seen)
+        return out
+    if isinstance(v, RefV):
+        return self.direct(v.v, stop, depth + 1, seen)
+    if isinstance(v, Agg):
+        for f in v.fields:
+            out |= self.direct(f, stop, depth + 1, seen)
+        return out
+    if isinstance(v, Lazy):
+        if v.oid in seen:
+            return out
+        seen.add(v.oid)
+        out.add(v.oid)
+        if v.oid in stop:
+            return out
+        # deref twins: &T and T are the same object for this purpose
+        o_ = v.oid
+        while o_ in ex.parent and ex.parent[o_][1] == ("deref",):
+            o_ = ex.parent[o_][0]
+            out.add(o_)
+        for (po, key), ch in ex.lazy_tab.items():
+            if po == v.oid and key == ("deref",) and isinstance(ch, Lazy):
+                out.add(ch.oid)
+        for a in self.mutobj.get(v.oid, []):
+            out |= self.direct(a, stop, depth + 1, seen)
+        # a value computed by a call: its arguments flow in; a field of a call result: the call's arguments flow in as well
+        root = v.oid
+        while root in ex.parent:
+            root = ex.parent[root][0]
+        if root in ex.havoc_calls and root not in stop:
+            for a in ex.havoc_snap.get(root, ex.havoc_calls[root][1]):
+                out |= self.direct(a, stop, depth + 1, seen)
+        return out
+    return out
+
+
+Prov.direct = _prov_direct
+
+
 def locals_mutated(ex, o, fr_fn):
     return {}
 
@@ -198,6 +253,21 @@ def analyse_structs(ses, rep, fs, sigs):
                     if r == "sat":
                         flagged.append((f"guard/{fs}/{f.name}/path{pi}", f"{f.name} calls {t[1].split('::')[-1]} although {accn}() may be non-empty (its values would be dropped)",
                                         "child", {"function": f.name, "type": rt, "slot": accn}))
+            # a Block rebuilt from a single statement of the input block (collapsed `if x then f() end`, one-line function bodies)
+            # silently drops every other statement: only allowed behind a guard that implies is_block_simple / is_block_empty
+            for t in o.trace:
+                if t[0] == "havoc" and re.search(r"(^|::)Block::with_(stmts|last_stmt)$", t[1]) and len(t) > 4 and isinstance(t[4][0], Lazy) \
+                        and ex.havoc_calls.get(t[4][0].oid, ("",))[0].endswith("Block::new") \
+                        and (t[1].endswith("with_last_stmt") or (isinstance(t[4][1], Lazy) and "into_vec" in ex.havoc_calls.get(t[4][1].oid, ("",))[0])):
+                    # (with_stmts(vec![one statement]) or with_last_stmt on a fresh block; a block rebuilt from a loop over all statements is
+                    #  decided by the child-slot obligations)
+                    gs = [u[3].t for u in o.trace if u[0] == "havoc" and u[1].split("::")[-1] in REBUILD_GUARDS and isinstance(u[3], Sym) and z3.is_bool(u[3].t)]
+                    bad = z3.And(*[z3.Not(g) for g in gs]) if gs else z3.BoolVal(True)
+                    r, m = ses.obligation(f"rebuild/{fs}/{f.name}/path{pi}/{t[1].split('::')[-1]}-only-behind-a-simple-block-guard", list(o.pc), bad,
+                                          "a block is rebuilt from one statement only where a guard says it has no other statement")
+                    if r == "sat":
+                        flagged.append((f"rebuild/{fs}/{f.name}/path{pi}", f"{f.name} rebuilds a block from a single statement without a guard that the block has no other statement",
+                                        "rebuild", {"function": f.name, "type": "If"}))
             if is_enum:
                 flagged += check_enum(ses, rep, ex, T, f, rt, node, o, pi, v, P, fs)
                 continue
@@ -323,6 +393,61 @@ def check_enum(ses, rep, ex, T, f, rt, node, o, pi, v, P, fs):
                 flagged.append((oid0, f"{f.name} returns a {rt} that is not built from its input", "kind", {"function": f.name, "type": rt}))
         else:
             rep.add(oid0 + "/built-from-the-input-node", "unsat", "result is a function of the input node (kind decided by the callee)", nontrivial=False)
+    return flagged
+
+
+def rebuild_guards(ses, rep, fs):
+    """is_block_simple(block) == true implies the block consists of exactly one statement OR exactly one last statement;
+    every other guard used before a partial rebuild implies is_block_simple / is_block_empty"""
+    flagged = []
+    funcs = ses.mir("lib", fs)
+    ex = ses.executor("lib", fs, inline=lambda n_, fn: False)
+    ex.max_block_visits = 2
+    f = ses.need(ex, "is_block_simple")
+    outs = ex.run(f, lazy_args(ex, f))
+    rep.fn(f)
+    n = 0
+    for pi, o in enumerate(outs):
+        if o.kind != "return" or not isinstance(o.value, Sym):
+            continue
+        counts = [t[3].t for t in o.trace if t[0] == "havoc" and t[1].endswith("Iterator>::count") and isinstance(t[3], Sym)]
+        nexts = [ex.discr(o.state, t[3]) for t in o.trace if t[0] == "havoc" and t[1].endswith("Iterator>::next") and isinstance(t[3], (Lazy, Agg))]
+        lasts = [ex.discr(o.state, t[3]) for t in o.trace if t[0] == "havoc" and t[1].endswith("Block::last_stmt") and isinstance(t[3], (Lazy, Agg))]
+        one_stmt = z3.And(z3.Or(*[c == z3.BitVecVal(1, c.size()) for c in counts]) if counts else z3.BoolVal(False),
+                          z3.Or(*[d == 0 for d in lasts]) if lasts else z3.BoolVal(False))
+        only_last = z3.And(z3.Or(*[d == 0 for d in nexts]) if nexts else z3.BoolVal(False),
+                           z3.Or(*[d == 1 for d in lasts]) if lasts else z3.BoolVal(False))
+        pre = list(o.pc) + [o.value.t]
+        if not ses.reachable(pre):
+            continue
+        n += 1
+        r, m = ses.obligation(f"rebuild/{fs}/is_block_simple/path{pi}/true=>one-statement-xor-one-last-statement", pre, z3.Not(z3.Or(one_stmt, only_last)),
+                              "true only if stmts().count() == 1 and no last statement, or no statement and a last statement")
+        if r == "sat":
+            flagged.append((f"rebuild/{fs}/is_block_simple/path{pi}", "is_block_simple accepts a block with more than one statement (the collapsed forms keep only the first)",
+                            "rebuild", {"function": "is_block_simple", "type": "If"}))
+    if n == 0:
+        raise Inconclusive("is_block_simple: no path returns true")
+    for g in REBUILD_GUARDS:
+        if g in ("is_block_simple", "is_block_empty"):
+            continue
+        cands = [x for nm, l in funcs.items() for x in l if x.name.split("::")[-1] == g]
+        for fg in cands:
+            ex = ses.executor("lib", fs, inline=lambda n_, fn: False)
+            ex.max_block_visits = 2
+            outs = ex.run(fg, lazy_args(ex, fg))
+            rep.fn(fg)
+            for pi, o in enumerate(outs):
+                if o.kind != "return" or not isinstance(o.value, Sym):
+                    continue
+                ibs = [t[3].t for t in o.trace if t[0] == "havoc" and t[1].split("::")[-1] in ("is_block_simple", "is_block_empty") and isinstance(t[3], Sym)]
+                pre = list(o.pc) + [o.value.t]
+                if not ses.reachable(pre):
+                    continue
+                r, m = ses.obligation(f"rebuild/{fs}/{g}/path{pi}/true=>is_block_simple", pre, z3.And(*[z3.Not(b) for b in ibs]) if ibs else z3.BoolVal(True),
+                                      "the guard holds only for blocks is_block_simple / is_block_empty accepts")
+                if r == "sat":
+                    flagged.append((f"rebuild/{fs}/{g}/path{pi}", f"{g} can hold for a block that is_block_simple does not accept", "rebuild", {"function": g, "type": "If"}))
     return flagged
 
 
@@ -467,6 +592,7 @@ EXTRA = {
     "wide-numeric-for": ("Lua51", "for some_very_long_index_variable_name = some_very_long_start_expression_name, some_very_long_end_expression_name, some_very_long_step_name do\n\tprint(1)\nend\n"),
     "wide-generic-for": ("Lua51", "for some_very_long_key_name, some_very_long_value_name in some_very_long_iterator_function_name(some_very_long_argument_name), second_expression do\n\tprint(1)\nend\n"),
     "wide-assign": ("Lua51", "some_very_long_target_name_number_one, some_very_long_target_name_number_two = some_very_long_value_name_number_one, some_very_long_value_name_number_two\n"),
+    "two-statement-guards": ("Lua51", "if ready then count = count + 1 notify(count) end\nif a then f() g() end\nlocal h = function() first() second() end\nlocal k = function() x = 1 return x end\n"),
     "wide-return": ("Lua51", "return some_very_long_returned_value_number_one, some_very_long_returned_value_number_two, some_very_long_returned_value_number_three\n"),
 }
 
@@ -482,6 +608,7 @@ def run(ses, rep):
     flagged = []
     for fs in (("full",) if rep.tier == "quick" else ("full", "default")):
         flagged += analyse_structs(ses, rep, fs, sigs)
+        flagged += rebuild_guards(ses, rep, fs)
     # C: numbers (C04's kernel)
     try:
         before = len(rep.obligations)
@@ -490,6 +617,23 @@ def run(ses, rep):
         rep.add("number-kernel", "inconclusive", str(e)[:300])
     # B': parentheses on a small plan of C05's composer
     c05.run(ses, rep, plan=[("default", 2, 1, False)] if rep.tier == "quick" else [("default", 2, 1, False), ("full", 2, 1, True)])
+    # a semicolon is redundant only if the next statement cannot continue the previous one (C01's O1 kernel, reused)
+    from . import c01
+    semi = []
+    for fs in ("default", "full"):
+        semi += c01.o1_semicolon(ses, rep, fs)
+    semi += c01.o1_block_emits(ses, rep)
+    seen = {}
+    for oid, what, kind, info in semi:
+        key = (kind, json.dumps(info, sort_keys=True))
+        if key not in seen:
+            seen[key] = c01.REPLAYS[kind](info)
+        v, rec = seen[key]
+        if v is None:
+            rep.add(oid, "inconclusive", f"solver model ({what}) did not reproduce on the native build")
+        else:
+            role = {"obligation": kind, **{k: v_ for k, v_ in info.items() if k in ("current", "next")}}
+            rep.add(oid, rep.violation(role, {"what": what, "observed": v, "kind": kind, "info": info, **rec}), f"{what}; {v}")
     rep.samples.append({"flagged": [(f[0], f[1]) for f in flagged][:8]})
     if not flagged:
         return
